@@ -44,6 +44,12 @@ def cases(prop, tier, seed):
                 out.append(dict(kind="C20rank", inner=name, dseed=int(rs.randint(1 << 30)), n=int(rs.randint(5, 10)), a=int(rs.randint(2, 5)),
                                 mode=t % 3, b=int(rs.randint(1, 5)), sseed=int(rs.randint(0, 30)), t=t, cls="SingleAnnotatorWrapper[" + name + "]",
                                 key=["C20rank", name, t]))
+    if prop == "C06":
+        # reproducibility of the multi-annotator strategies (the single-annotator ones are swept by bounded/pool.py)
+        for name in ("IntervalEstimationThreshold", "RandomSampling", "US-margin"):
+            for t in range(8 * reps):
+                out.append(dict(kind="C06multi", inner=name, dseed=int(rs.randint(1 << 30)), n=int(rs.randint(4, 9)), a=int(rs.randint(2, 5)),
+                                b=int(rs.randint(1, 6)), sseed=int(rs.randint(0, 30)), t=t, cls=name + "[multi-annotator]", key=["C06multi", name, t]))
     if prop == "C05":
         # the multi-annotator strategies (the single-annotator ones are swept by bounded/pool.py)
         for name in ("RandomSampling", "US-margin", "ProbabilisticAL", "IntervalEstimationThreshold"):
@@ -256,6 +262,66 @@ def run_c20(case, fail):
                 fail("C20.subsampling_utilities_not_inner", "utilities of the sub-sample differ from the wrapped strategy's utilities")
         except Exception:
             pass
+
+
+def run_c06_multi(case, fail):
+    """twins with equal seeds (int and RandomState instances), a repeated call on one object and different global seeds: identical pairs and
+    utilities; the data are full of ties (duplicated rows, tied votes, annotators with equal performance)"""
+    from skactiveml.pool.multiannotator import SingleAnnotatorWrapper, IntervalEstimationThreshold
+    from skactiveml.classifier.multiannotator import AnnotatorEnsembleClassifier
+    rs = np.random.RandomState(case["dseed"])
+    n, a, name = case["n"], case["a"], case["inner"]
+    X = rs.randint(0, 2, size=(n, 2)).astype(float)                 # duplicated points
+    Y = rs.randint(0, 2, size=(n, a)).astype(float)
+    Y[:, 1:] = 1 - Y[:, :1] if a == 2 else Y[:, 1:]               # two annotators: always tied votes
+    Y[rs.rand(n, a) < 0.4] = np.nan
+    Y[0, :] = np.nan
+
+    def run(seed_obj, gseed):
+        np.random.seed(gseed)
+        if name == "IntervalEstimationThreshold":
+            qs = IntervalEstimationThreshold(random_state=seed_obj)
+            clf = AnnotatorEnsembleClassifier(estimators=[(f"p{j}", pwc(seed=3)) for j in range(a)], classes=[0, 1], voting="soft", random_state=3)
+            return qs, lambda: qs.query(X, Y, clf=clf, batch_size=case["b"], return_utilities=True)
+        z = ZOO[name]
+        qs = SingleAnnotatorWrapper(make_strategy(name, case["sseed"]), random_state=seed_obj)
+        return qs, lambda: qs.query(X, Y, batch_size=case["b"], return_utilities=True, **z["kwargs"](NAN, (0, 1), case["sseed"]))
+    import signal
+
+    class _T(Exception):
+        pass
+
+    def _al(*_a):
+        raise _T()
+    old = signal.signal(signal.SIGALRM, _al)
+    signal.alarm(6)
+    try:
+        outs = {}
+        for tag, mk in (("int", lambda: case["sseed"]), ("RandomState", lambda: np.random.RandomState(case["sseed"]))):
+            res = []
+            for g in (1, 2):
+                _, call = run(mk(), g)
+                q, U = call()
+                res.append((np.asarray(q).tolist(), np.round(np.asarray(U, dtype=float), 12).tobytes()))
+            if res[0] != res[1]:
+                fail(f"C06.multiannotator_twins_differ.{tag}", f"two fresh objects with equal seeds ({tag}) return {res[0][0]} and {res[1][0]} under different global seeds")
+            outs[tag] = res[0]
+        for tag, mk in (("int", lambda: case["sseed"]), ("RandomState", lambda: np.random.RandomState(case["sseed"]))):
+            qs, call = run(mk(), 5)
+            r1 = call()
+            r2 = call()
+            if np.asarray(r1[0]).tolist() != np.asarray(r2[0]).tolist() or \
+                    not np.array_equal(np.asarray(r1[1], dtype=float), np.asarray(r2[1], dtype=float), equal_nan=True):
+                fail(f"C06.multiannotator_repeated_call_differs.{tag}", f"{np.asarray(r1[0]).tolist()} then {np.asarray(r2[0]).tolist()} for the same call "
+                                                                         f"on one object (random_state given as {tag})")
+    except _T:
+        return
+    except Exception:
+        return          # raising / non-termination is C07's business
+    finally:
+        signal.alarm(0)
+        signal.signal(signal.SIGALRM, old)
+        np.random.seed(None)
 
 
 def run_c20_rank(case, fail):
@@ -479,7 +545,7 @@ def run_case(prop, case):
     def fail(what, detail):
         fail._count = getattr(fail, "_count", 0) + 1
         fails.append({"sig": f"{case['cls']}:{what}", "detail": detail, "replay": {"module": "bounded.wrappers", "prop": prop, "case": case}})
-    {"C19": run_c19, "C20": run_c20, "C07": run_c07, "C05": run_c07, "C20rank": run_c20_rank}[case["kind"]](case, fail)
+    {"C19": run_c19, "C20": run_c20, "C07": run_c07, "C05": run_c07, "C20rank": run_c20_rank, "C06multi": run_c06_multi}[case["kind"]](case, fail)
     return fails
 
 
